@@ -242,6 +242,7 @@ class StreamsRun:
                     continue
                 if k == "a_sample":
                     self._gaussian_mechanism(op, dists[op["d"]], g, n_before, out)
+                    self._support_oracle(op, dists[op["d"]], out)
                 if k == "a_sample" and op["d"] in self.specs:
                     self._fresh_twin_oracle(op, dists[op["d"]], pre, out)
                     if self.touched.get(op["d"]):
@@ -308,6 +309,24 @@ class StreamsRun:
                 ctx.violate(PROP, "interleaved_differs_from_solo", self.sig(client="B", op=op["op"], fam=self._fam(op)), index=i)
                 break
         np.random.set_state(saveG)
+
+    def _support_oracle(self, op, dist, out):
+        """one column per draw: every column of the returned collection must be a point of positive density under the
+        object itself (catches a transposed / mis-shaped collection whose shape happens to be admissible)"""
+        ctx = self.ctx
+        if self.conditional.get(op["d"]):
+            return
+        cols = out.reshape(dist.dim, -1)
+        for j in range(cols.shape[1]):
+            try:
+                v = float(np.ravel(dist.logd(cols[:, j]))[0])
+            except Exception:
+                return                      # family without an evaluable log-density: not judged
+            ctx.count("decisions")
+            if np.isnan(v) or v == -np.inf:
+                ctx.violate(PROP, "drawn_column_outside_support", self.sig(fam=self._fam(op), N_eq_dim=(op["N"] == dist.dim)),
+                            column=j, logd=v, N=op["N"], dim=int(dist.dim))
+                return
 
     def _gaussian_mechanism(self, op, dist, g, n_before, out):
         """Gaussian-type families only: the draw is mean + L e for the standard-normal block e the generator handed out,
@@ -499,7 +518,7 @@ def gen_case(r, tier):
     ops = []
     for _ in range(r.randint(3, 10)):
         x = r.random()
-        N = r.choice([1, 1, 2, 3, 7])
+        N = r.choice([1, 1, 2, 3, 4, 5, 7])
         if x < 0.45:
             ops.append({"op": "a_sample", "d": r.randrange(nd), "N": N, "repeat": r.random() < 0.4})
         elif x < 0.55:
